@@ -69,7 +69,7 @@ func (r *Runner) Exec(line string) (out string, emit bool) {
 		return r.execSketch(f[0], f[1:]), true
 	case "D", "dadd", "dlq", "duq", "dmin", "dmax", "dsum", "dcount", "dmerge":
 		return r.execDataset(f[0], f[1:]), true
-	case "pbchk", "frompb":
+	case "pbchk", "frompb", "pbeq":
 		return r.execProto(f[0], f[1:]), true
 	case "chmap":
 		return r.execChmap(f[1:]), true
